@@ -2,6 +2,7 @@ package syntax
 
 import (
 	"bytes"
+	"math"
 	"sort"
 	"strconv"
 )
@@ -540,6 +541,11 @@ func (e *FloatExp) jsonSizeEstimate() int {
 func (e *FloatExp) EncodeJSON(buf *bytes.Buffer) error {
 	if e == nil {
 		_, err := buf.WriteString("null")
+		return err
+	}
+	if e.Value == 0 && math.Signbit(e.Value) {
+		// "-0" would be read back as an integer, which has no sign for zero.
+		_, err := buf.WriteString("-0.0")
 		return err
 	}
 	var b [68]byte
